@@ -17,8 +17,8 @@ Proof.
   - cbn [escape_body flat_map app quote_body length]. rewrite Ascii.eqb_refl.
     destruct rest as [|d rest]; [f_equal; lia|]. rewrite Hr. f_equal. lia.
   - cbn [escape_body flat_map]. fold (escape_body q body). destruct (Ascii.eqb c q) eqn:E.
-    + apply Ascii.eqb_eq in E. subst c. cbn [app quote_body]. rewrite Ascii.eqb_refl. cbn [quote_body].
-      rewrite Ascii.eqb_refl. rewrite (IH _ _ Hr). cbn [length]. f_equal. lia.
+    + apply Ascii.eqb_eq in E. subst c. cbn [app quote_body]. rewrite !Ascii.eqb_refl. cbn [quote_body].
+      rewrite ?Ascii.eqb_refl. rewrite (IH _ _ Hr). cbn [length]. f_equal. lia.
     + cbn [app quote_body]. rewrite E. rewrite (IH _ _ Hr). cbn [length]. f_equal. lia.
 Qed.
 
@@ -66,11 +66,146 @@ Qed.
 Lemma str_of_nat_free k : quote_free (str_of_nat k) = true.
 Proof. unfold str_of_nat. now apply digits_fuel_free. Qed.
 
-Lemma escape_free q t : quote_free t = true -> escape_body q t = t.
+Lemma escape_free q t : is_quote q = true -> quote_free t = true -> escape_body q t = t.
 Proof.
-  induction t as [|c t IH]; intros H; [reflexivity|]. cbn [quote_free forallb] in H. apply andb_true_iff in H as [Hc H].
+  intros Hq. induction t as [|c t IH]; intros H; [reflexivity|]. cbn [quote_free forallb] in H. apply andb_true_iff in H as [Hc H].
   cbn [escape_body flat_map]. fold (escape_body q t). rewrite (IH H).
   destruct (Ascii.eqb c q) eqn:E; [|reflexivity]. apply Ascii.eqb_eq in E. subst c.
-  apply negb_true_iff in Hc. unfold is_quote in Hc. apply orb_false_iff in Hc as [H1 H2].
-  destruct (is_quote_cases_local q) as [->|->].
-Abort.
+  apply negb_true_iff in Hc. congruence.
+Qed.
+
+(* the k-th literal as the scanners see it *)
+Definition masked_lit (k : nat) : str := dquote :: str_of_nat k ++ [dquote].
+
+Fixpoint render_masked (k : nat) (ps : list piece) : str :=
+  match ps with
+  | [] => []
+  | PLit _ _ :: ps' => masked_lit k ++ render_masked (S k) ps'
+  | p :: ps' => render_piece p ++ render_masked k ps'
+  end.
+
+Definition hd_no_quote (x : str) : bool := match x with c :: _ => negb (is_quote c) | [] => true end.
+
+(* code without quote characters, literals delimited by quotes and not directly followed by a quote *)
+Fixpoint pieces_ok (ps : list piece) : bool :=
+  match ps with
+  | [] => true
+  | PCode t :: ps' => quote_free t && pieces_ok ps'
+  | PLit q _ :: ps' => is_quote q && hd_no_quote (render_pieces ps') && pieces_ok ps'
+  | _ :: ps' => pieces_ok ps'
+  end.
+
+Fixpoint nlits (ps : list piece) : nat :=
+  match ps with [] => 0 | PLit _ _ :: ps' => S (nlits ps') | _ :: ps' => nlits ps' end.
+
+Lemma spaces_free n : quote_free (spaces n) = true.
+Proof. induction n; [reflexivity|exact IHn]. Qed.
+
+Lemma quote_free_app a b : quote_free (a ++ b) = quote_free a && quote_free b.
+Proof. unfold quote_free. apply forallb_app. Qed.
+
+Lemma hd_no_quote_eqb x q : is_quote q = true -> hd_no_quote x = true ->
+  match x with d :: _ => Ascii.eqb d q = false | [] => True end.
+Proof.
+  destruct x as [|d x]; [trivial|]. cbn. intros Hq H. apply negb_true_iff in H.
+  destruct (Ascii.eqb d q) eqn:E; [|reflexivity]. apply Ascii.eqb_eq in E. congruence.
+Qed.
+
+Lemma dquote_is_quote : is_quote dquote = true.
+Proof. reflexivity. Qed.
+
+(* one turn of the loop on  done ++ pre ++ literal ++ rest  *)
+Lemma mask_loop_step fuel k done pre q body rest :
+  quote_free pre = true -> is_quote q = true -> hd_no_quote rest = true ->
+  mask_loop (S fuel) k (done ++ pre ++ (q :: escape_body q body ++ [q]) ++ rest) (length done) =
+  mask_loop fuel (S k) ((done ++ pre ++ masked_lit k) ++ rest) (length (done ++ pre ++ masked_lit k)).
+Proof.
+  intros Hpre Hq Hr.
+  assert (El : (q :: escape_body q body ++ [q]) ++ rest = q :: escape_body q body ++ q :: rest)
+    by (cbn [app]; rewrite <- app_assoc; reflexivity).
+  rewrite El. cbn [mask_loop]. rewrite skipn_app_len'.
+  rewrite (quotes_search_free pre [] _ Hpre). cbn [app].
+  rewrite (quotes_search_lit pre q body rest Hq (hd_no_quote_eqb rest q Hq Hr)).
+  rewrite firstn_app_len, skipn_app_len'.
+  rewrite (quotes_search_free pre [] _ Hpre). cbn [app].
+  pose proof (quotes_search_lit pre dquote (str_of_nat k) rest dquote_is_quote (hd_no_quote_eqb rest dquote dquote_is_quote Hr)) as Hs.
+  rewrite (escape_free dquote _ dquote_is_quote (str_of_nat_free k)) in Hs. rewrite Hs.
+  assert (E1 : done ++ pre ++ dquote :: str_of_nat k ++ dquote :: rest = (done ++ pre ++ masked_lit k) ++ rest).
+  { unfold masked_lit. rewrite <- !app_assoc. cbn [app]. rewrite <- app_assoc. reflexivity. }
+  assert (E2 : length done + length pre + length (dquote :: str_of_nat k ++ [dquote]) = length (done ++ pre ++ masked_lit k)).
+  { unfold masked_lit. rewrite !app_length. lia. }
+  now rewrite E1, E2.
+Qed.
+
+Lemma mask_loop_pieces ps : forall fuel k done pre,
+  quote_free pre = true -> pieces_ok ps = true -> nlits ps < fuel ->
+  mask_loop fuel k (done ++ pre ++ render_pieces ps) (length done) = done ++ pre ++ render_masked k ps.
+Proof.
+  unfold render_pieces. induction ps as [|p ps IH]; intros fuel k done pre Hpre Hok Hf.
+  - cbn [flat_map render_masked]. rewrite app_nil_r. destruct fuel as [|fuel]; [reflexivity|].
+    cbn [mask_loop]. rewrite skipn_app_len'. now rewrite (quotes_search_none pre [] Hpre).
+  - destruct p as [t|q body|n|]; cbn [flat_map render_piece pieces_ok nlits render_masked] in *.
+    + apply andb_true_iff in Hok as [Ht Hok].
+      assert (E : forall X, done ++ pre ++ t ++ X = done ++ (pre ++ t) ++ X) by (intros; now rewrite <- app_assoc).
+      rewrite !E. apply IH; [rewrite quote_free_app; now rewrite Hpre, Ht|exact Hok|exact Hf].
+    + apply andb_true_iff in Hok as [Hok Hps]. apply andb_true_iff in Hok as [Hq Hh].
+      destruct fuel as [|fuel]; [lia|].
+      rewrite (mask_loop_step fuel k done pre q body (flat_map render_piece ps) Hpre Hq Hh).
+      pose proof (IH fuel (S k) (done ++ pre ++ masked_lit k) [] eq_refl Hps) as IH'. cbn [app] in IH'.
+      rewrite IH' by lia. rewrite <- !app_assoc. reflexivity.
+    + assert (E : forall X, done ++ pre ++ spaces n ++ X = done ++ (pre ++ spaces n) ++ X) by (intros; now rewrite <- app_assoc).
+      rewrite !E. apply IH; [rewrite quote_free_app; now rewrite Hpre, spaces_free|exact Hok|exact Hf].
+    + assert (E : forall X, done ++ pre ++ [semi] ++ X = done ++ (pre ++ [semi]) ++ X) by (intros; now rewrite <- app_assoc).
+      rewrite !E. apply IH; [rewrite quote_free_app; now rewrite Hpre|exact Hok|exact Hf].
+Qed.
+
+Lemma nlits_len ps : pieces_ok ps = true -> nlits ps <= length (render_pieces ps).
+Proof.
+  unfold render_pieces. induction ps as [|p ps IH]; intros H; [apply le_n|].
+  destruct p; cbn [pieces_ok nlits flat_map render_piece] in *; rewrite app_length;
+    repeat match goal with H : _ && _ = true |- _ => apply andb_true_iff in H as [? H] end;
+    specialize (IH H); cbn [length]; lia.
+Qed.
+
+(* C08_literals_inert: literal k becomes the number k between double quotes; nothing else changes *)
+Theorem mask_pieces ps : pieces_ok ps = true -> mask_quotes (render_pieces ps) = render_masked 0 ps.
+Proof.
+  intros Hok. unfold mask_quotes.
+  pose proof (mask_loop_pieces ps (S (length (render_pieces ps))) 0 [] [] eq_refl Hok) as H. cbn [app length] in H.
+  apply H. pose proof (nlits_len ps Hok). lia.
+Qed.
+
+(* two statements that differ in the bodies of their literals only *)
+Fixpoint same_shape (a b : list piece) : bool :=
+  match a, b with
+  | [], [] => true
+  | PCode t :: a', PCode t' :: b' => str_eqb t t' && same_shape a' b'
+  | PLit _ _ :: a', PLit _ _ :: b' => same_shape a' b'
+  | PSp n :: a', PSp m :: b' => Nat.eqb n m && same_shape a' b'
+  | PSemi :: a', PSemi :: b' => same_shape a' b'
+  | _, _ => false
+  end.
+
+Lemma same_shape_masked a : forall b k, same_shape a b = true -> render_masked k a = render_masked k b.
+Proof.
+  induction a as [|p a IH]; intros [|p' b] k H; try discriminate; [reflexivity|].
+  destruct p, p'; try discriminate; cbn [same_shape render_masked render_piece] in *.
+  - apply andb_true_iff in H as [Ht H]. apply str_eqb_eq in Ht. subst. now rewrite (IH b k H).
+  - now rewrite (IH b (S k) H).
+  - apply andb_true_iff in H as [Hn H]. apply Nat.eqb_eq in Hn. subst. now rewrite (IH b k H).
+  - now rewrite (IH b k H).
+Qed.
+
+(* whatever the literals contain — call-like text, parentheses, quotes of the other kind, doubled
+   delimiters — the scanners see the same line *)
+Theorem literals_any_body a b : pieces_ok a = true -> pieces_ok b = true -> same_shape a b = true ->
+  mask_quotes (render_pieces a) = mask_quotes (render_pieces b).
+Proof. intros Ha Hb Hs. rewrite (mask_pieces a Ha), (mask_pieces b Hb). now apply same_shape_masked. Qed.
+
+Example literals_example :
+  let a := [PCode (s "print"); PSp 1; PCode (s "*,"); PSp 1; PLit sq (s "call q(1)"); PCode (s ","); PSp 1; PCode (s "f(3)");
+            PCode (s ","); PLit dq (s "it's g(2)")] in
+  let b := [PCode (s "print"); PSp 1; PCode (s "*,"); PSp 1; PLit dq (s ""); PCode (s ","); PSp 1; PCode (s "f(3)");
+            PCode (s ","); PLit sq (s "x = 'y'")] in
+  pieces_ok a = true /\ pieces_ok b = true /\ same_shape a b = true /  render_pieces a = s "print *, 'call q(1)', f(3),""it's g(2)""" /  mask_quotes (render_pieces a) = s "print *, ""0"", f(3),""1""" /  raw_calls [] (mask_quotes (render_pieces a)) = [[s "f"]].
+Proof. cbv zeta. repeat split; vm_compute; reflexivity. Qed.
